@@ -109,7 +109,19 @@ pub fn convert_here(conv: usize, vals: Vec<u64>, clock_id: u64) -> Outcome {
             }
             _ => {
                 let l = gen_lef_for_import(&mut t);
-                let rawlib = raw::lef::LefImporter::import(&l, None).map_err(|e| format!("{:?}", e))?;
+                // sometimes into a pre-supplied, PDK-style layer set (numbers with gaps, some names already present)
+                let pre = if t.chance(1, 3) {
+                    let mut ls = raw::Layers::default();
+                    for (num, name) in [(64i16, "nwell"), (67, "li1"), (68, "met1"), (70, "met3"), (235, "prBoundary")] {
+                        if t.chance(2, 3) {
+                            ls.add(raw::Layer::new(num, name));
+                        }
+                    }
+                    Some(layout21raw::utils::Ptr::new(ls))
+                } else {
+                    None
+                };
+                let rawlib = raw::lef::LefImporter::import(&l, pre).map_err(|e| format!("{:?}", e))?;
                 let mut d = dump_raw(&rawlib);
                 let back = raw::lef::LefExporter::export(&rawlib).map_err(|e| format!("{:?}", e))?;
                 d.push_str(&dump_lef(&back));
